@@ -13,9 +13,17 @@ Translation choices
   (default `0`), `wc[i]` ↦ `wcAt i` (default `-1`), `S[i]` ↦ `sAt S i` (default `' '`); a store
   `S[j] = v` ↦ `List.set`.  The *values* of `eq`/`wc` stay 1-based exactly as in the files and in
   the C ("treacherous programming convention"), `eq` as `Nat` (the loader rejects negatives), `wc`
-  as `Int` (`-1` = none).  Out-of-range reads are undefined behaviour in C and a default value here;
-  under the contract (`Contract`) every index the program computes is in range, memory safety of
-  the C text itself is *not* a statement about this model (sanitizer runs cover it).
+  as `Int` (`-1` = none).  Out-of-range reads are undefined behaviour in C and a default value here.
+  That every index the modelled C text computes is in range under the contract is a theorem about
+  the bounds-checked twin `PepperModel/SsmChecked.lean` (every access `A[i]?`, explicit `oob`
+  result): `C19Safe.Props.no_oob_under_contract`, and `C19Safe.Props.checked_refines_total` shows
+  that an `ok` result of the twin is the result of the functions below (`PepperProps/C19Safe.lean`).
+  Index computations that this total model leaves out and the twin restores: the lookup
+  `freeloc[k]` of the drawn index (an `Event` here carries the looked-up position), `oldc = S[i]` /
+  `St[i]` in `mutate`, the save / restore loops over `oldS`, the reads of `test_consistency`'s error
+  messages (`S[wc[i]]`, `S[eq[i]]`, …), the `nbp` loop, `strlen(S)` as bound of the automatic `nq`
+  loop; `wcIx` maps `wc[i] = 0` to position `0` where the C reads `wc[-1]`.  Outside the modelled
+  text (loader, scoring code) memory safety is covered by sanitizer runs only.
 * **`for` loops** are `assignLoop` over the explicit index list (`List.range`, `List.range'`); the
   loop body `if (p j) S[j] = f(S[i])` re-reads `S[i]` in every iteration, as the C does.
   In `constrain` the statements `S[j]=…; marked[j]=1;` under one condition are run as two loops
